@@ -1263,7 +1263,7 @@ fn rule_quiescent_late(ctx: &Ctx, out: &mut Vec<Violation>) {
         if m.sub_delete_ever(&sub) || inst.push.is_some() {
             continue;
         }
-        let incomplete_pull = m.calls.values().any(|c| matches!(&c.req, Req::Pull { sub: s, .. } | Req::DrainPull { sub: s } if *s == sub) && c.inv_seq < limit && !matches!(c.out, Some(Outcome::Ok(_)) | Some(Outcome::Err(_, _))));
+        let incomplete_pull = m.calls.values().any(|c| matches!(&c.req, Req::Pull { sub: s, .. } | Req::DrainPull { sub: s } if *s == sub) && c.inv_seq < limit && match &c.out { Some(Outcome::Ok(_)) | Some(Outcome::Err(_, _)) | None => false, Some(_) => c.ret_seq.map(|r| r < limit).unwrap_or(true) });
         let incomplete_stream = m.streams.values().any(|st| st.sub == sub && st.window > 0) || m.streams.values().any(|st| st.sub == sub && matches!(&st.end, Some((es, _, e)) if *es < limit && !matches!(e, StreamEnd::Status(_, _) | StreamEnd::Eof)));
         let cancelled_bg = m.calls.values().any(|c| matches!(&c.req, Req::Pull { sub: s, bg_slot: Some(slot), .. } if *s == sub && m.cancel_bg.contains_key(slot)));
         if incomplete_pull || incomplete_stream || cancelled_bg {
@@ -1327,7 +1327,7 @@ fn rule_vanished(ctx: &Ctx, out: &mut Vec<Violation>) {
         // and what is published from then on counts (`floor`).
         let dels: Vec<&Call> = m.sub_deletes.get(&sub).map(|v| v.iter().map(|c| &m.calls[c]).collect()).unwrap_or_default();
         let first_effective_delete = dels.iter().filter(|c| !matches!(c.out, Some(Outcome::Err(_, _)) | Some(Outcome::Abandoned(_)))).map(|c| c.inv_seq).min().unwrap_or(u64::MAX);
-        let incomplete_pull = m.calls.values().any(|c| matches!(&c.req, Req::Pull { sub: s, .. } | Req::DrainPull { sub: s } if *s == sub) && c.inv_seq < limit && !matches!(c.out, Some(Outcome::Ok(_)) | Some(Outcome::Err(_, _))));
+        let incomplete_pull = m.calls.values().any(|c| matches!(&c.req, Req::Pull { sub: s, .. } | Req::DrainPull { sub: s } if *s == sub) && c.inv_seq < limit && match &c.out { Some(Outcome::Ok(_)) | Some(Outcome::Err(_, _)) | None => false, Some(_) => c.ret_seq.map(|r| r < limit).unwrap_or(true) });
         let incomplete_stream = m.streams.values().any(|st| st.sub == sub && st.window > 0) || m.streams.values().any(|st| st.sub == sub && (matches!(&st.end, Some((es, _, e)) if *es < limit && !matches!(e, StreamEnd::Status(_, _) | StreamEnd::Eof)) || !matches!(st.started, Some((_, _, _)))));
         let cancelled_bg = m.calls.values().any(|c| matches!(&c.req, Req::Pull { sub: s, bg_slot: Some(slot), .. } if *s == sub && m.cancel_bg.contains_key(slot)));
         if incomplete_pull || incomplete_stream || cancelled_bg {
